@@ -1,11 +1,298 @@
 package main
 
-// Rely-guarantee layer for declared shared fields (filled in later).
+// Rely-guarantee layer for fields declared `shared` in a package's contracts.
+//
+//   shared Stage.Status transition <T(old,new,x)> closure <R(old,new,x)>
+//   func F ... owns x *Stage :: <cond>
+//
+// Reads of a shared field are preceded by an interference step: the field's
+// heap array is replaced by an arbitrary one that is R-related point-wise and
+// equal on the objects this function owns. Writes must be T-steps on owned
+// objects (obligations guar / own). Every contract clause that mentions a
+// shared field must be stable under interference (obligation stable).
 
-type rgInfo struct{}
+import (
+	"fmt"
+	"go/token"
+	"go/types"
+	"strings"
 
-func (s *Session) rgInit()                            {}
-func (s *Session) rgEntry(st *State)                  {}
-func (s *Session) rgHavoc(st *State)                  {}
-func (s *Session) rgAfterCall(st *State, old *HeapSnap) {}
-func (s *Session) rgAtReturn(st *State)               {}
+	"golang.org/x/tools/go/ssa"
+)
+
+type sharedField struct {
+	key   string
+	sort  Sort
+	decl  *SharedDecl
+	stype types.Type
+	fidx  int
+}
+
+type rgInfo struct {
+	fields []*sharedField
+	owns   *OwnsSpec
+	stableDone map[string]bool
+	clean  map[string]bool // per state this would be better; conservatively reset on fork (see rgHavoc)
+}
+
+type OwnsSpec struct {
+	Var  QVar
+	Cond Expr
+	Src  string
+}
+
+func (s *Session) rgInit() {
+	var fields []*sharedField
+	for _, sd := range s.spec.Shared {
+		parts := strings.SplitN(sd.Field, ".", 2)
+		if len(parts) != 2 {
+			fatalf("shared %s: expected Type.Field", sd.Field)
+		}
+		t := s.P.resolveType(s.fn.Pkg.Pkg, parts[0])
+		_, st := structOf(t)
+		i := fieldIndex(st, parts[1])
+		if i < 0 {
+			fatalf("shared %s: no such field", sd.Field)
+		}
+		k, so := fieldKey(t, i)
+		s.heapSort(k, so)
+		fields = append(fields, &sharedField{key: k, sort: so, decl: sd, stype: t, fidx: i})
+	}
+	if len(fields) == 0 {
+		return
+	}
+	s.rg = &rgInfo{fields: fields, stableDone: map[string]bool{}}
+	if s.con != nil {
+		for _, e := range s.con.Effects {
+			if strings.HasPrefix(e, "owns ") {
+				// owns x *T :: cond
+				rest := strings.TrimSpace(e[5:])
+				i := strings.Index(rest, "::")
+				if i < 0 {
+					fatalf("%s: bad owns clause %q", s.name, e)
+				}
+				f := strings.Fields(rest[:i])
+				s.rg.owns = &OwnsSpec{Var: QVar{f[0], strings.Join(f[1:], "")}, Cond: mustExpr(rest[i+2:], s.con.File, s.con.Line), Src: rest}
+			}
+		}
+	}
+}
+
+func (s *Session) sharedKey(key string) *sharedField {
+	if s.rg == nil {
+		return nil
+	}
+	for _, f := range s.rg.fields {
+		if f.key == key {
+			return f
+		}
+	}
+	return nil
+}
+
+// ownsTerm: does the current function own object x (w.r.t. shared fields)?
+func (s *Session) ownsTerm(st *State, f *sharedField, x Term) Term {
+	if s.rg.owns == nil || f.decl.AnyWriter {
+		return TFalse
+	}
+	env := s.callerEnv(st)
+	t := s.P.resolveType(s.fn.Pkg.Pkg, s.rg.owns.Var.Type)
+	if tt, _ := structOf(t); tt == nil || !types.Identical(tt, f.stype) {
+		return TFalse
+	}
+	env.bound[s.rg.owns.Var.Name] = EVal{T: x, Ty: t}
+	return s.evalBool(st, env, s.rg.owns.Cond, s.rg.owns.Src)
+}
+
+func (s *Session) relTerm(st *State, f *sharedField, e Expr, old, new, x Term) Term {
+	env := s.callerEnv(st)
+	env.lookup = nil
+	env.vars = map[string]EVal{}
+	ft := f.stype.Underlying().(*types.Struct).Field(f.fidx).Type()
+	env.bound["old"] = EVal{T: old, Ty: ft}
+	env.bound["new"] = EVal{T: new, Ty: ft}
+	env.bound["x"] = EVal{T: x, Ty: types.NewPointer(f.stype)}
+	return s.evalBool(st, env, e, "transition of "+f.decl.Field)
+}
+
+// relyStep returns a fresh array related to cur by the rely, and the assumption.
+func (s *Session) relyStep(st *State, f *sharedField, cur Term) (Term, Term) {
+	n := s.fresh(f.key+"_rely", f.sort)
+	x := Term{"x!r", SInt}
+	own := s.ownsTerm(st, f, x)
+	r := s.relTerm(st, f, f.decl.Closure, Select(cur, x), Select(n, x), x)
+	body := And(Implies(own, Eq(Select(n, x), Select(cur, x))), r)
+	q := Term{fmt.Sprintf("(forall ((x!r Int)) (! %s :pattern ((select %s x!r))))", body.S, n.S), SBool}
+	return n, q
+}
+
+// rgHavoc: an interference step on every shared field.
+func (s *Session) rgHavoc(st *State) {
+	if s.rg == nil {
+		return
+	}
+	for _, f := range s.rg.fields {
+		cur := s.H(st, f.key, f.sort)
+		if strings.Contains(cur.S, "_rely!") && st.rgClean[f.key] == cur.S {
+			continue // nothing was read or written since the last interference step
+		}
+		n, q := s.relyStep(st, f, cur)
+		st.assume(q)
+		st.heap[f.key] = n
+		if st.rgClean == nil {
+			st.rgClean = map[string]string{}
+		}
+		st.rgClean[f.key] = n.S
+	}
+}
+
+func (s *Session) rgTouch(st *State, key string) {
+	if st.rgClean != nil {
+		delete(st.rgClean, key)
+	}
+}
+
+func (s *Session) rgEntry(st *State) {}
+
+func (s *Session) rgAfterCall(st *State, old *HeapSnap) { s.rgHavoc(st) }
+
+func (s *Session) rgAtReturn(st *State) {}
+
+// rgLoad / rgStore: accesses of a shared location.
+func (s *Session) rgLoad(st *State, l *Loc) {
+	if f := s.sharedKey(l.Key); f != nil {
+		s.rgHavoc(st)
+		s.rgTouch(st, l.Key)
+	}
+}
+
+func (s *Session) rgStore(st *State, l *Loc, v Term, pos token.Pos) {
+	f := s.sharedKey(l.Key)
+	if f == nil {
+		return
+	}
+	// the write happens at some moment: interference first
+	s.rgHavoc(st)
+	s.rgTouch(st, l.Key)
+	cur := s.H(st, f.key, f.sort)
+	x := l.Idx[0]
+	n := s.oblOrd("guar(" + f.decl.Field + ")")
+	if !f.decl.AnyWriter {
+		s.check(st, "own", s.obl("own("+f.decl.Field+")#"+n, ""), s.ownsTerm(st, f, x), pos)
+	}
+	s.check(st, "guar", s.obl("guar("+f.decl.Field+")#"+n, ""), s.relTerm(st, f, f.decl.Transition, Select(cur, x), v, x), pos)
+}
+
+// oblOrd numbers obligations of the same kind by their static site (instruction order).
+func (s *Session) oblOrd(kind string) string {
+	return fmt.Sprintf("%d", s.siteOrd(kind))
+}
+
+func (s *Session) siteOrd(kind string) int {
+	key := kind + "@" + s.curSite
+	if n, ok := s.oblN[key]; ok {
+		return n
+	}
+	s.oblN["#"+kind]++
+	s.oblN[key] = s.oblN["#"+kind]
+	return s.oblN[key]
+}
+
+// stable: clause (already evaluated to term t in state st) is preserved by an
+// interference step.
+func (s *Session) rgStable(st *State, name string, t Term, pos token.Pos) {
+	if s.rg == nil || s.rg.stableDone[name] {
+		return
+	}
+	mentions := false
+	st2 := st.clone()
+	t2 := t
+	for _, f := range s.rg.fields {
+		cur := s.H(st2, f.key, f.sort)
+		if !containsToken(t.S, cur.S) {
+			continue
+		}
+		mentions = true
+		n, q := s.relyStep(st2, f, cur)
+		st2.assume(q)
+		t2 = Term{replaceToken(t2.S, cur.S, n.S), SBool}
+	}
+	if !mentions {
+		return
+	}
+	s.rg.stableDone[name] = true
+	st2.assume(t)
+	s.check(st2, "stable", s.obl("stable("+name+")", ""), t2, pos)
+}
+
+func isTokChar(c byte) bool {
+	return c != ' ' && c != '(' && c != ')' && c != '\n'
+}
+
+func containsToken(s, tok string) bool {
+	for i := 0; ; {
+		j := strings.Index(s[i:], tok)
+		if j < 0 {
+			return false
+		}
+		j += i
+		e := j + len(tok)
+		if (j == 0 || !isTokChar(s[j-1])) && (e == len(s) || !isTokChar(s[e])) {
+			return true
+		}
+		i = j + 1
+	}
+}
+
+func replaceToken(s, tok, by string) string {
+	var b strings.Builder
+	for i := 0; i < len(s); {
+		j := strings.Index(s[i:], tok)
+		if j < 0 {
+			b.WriteString(s[i:])
+			break
+		}
+		j += i
+		e := j + len(tok)
+		b.WriteString(s[i:j])
+		if (j == 0 || !isTokChar(s[j-1])) && (e == len(s) || !isTokChar(s[e])) {
+			b.WriteString(by)
+		} else {
+			b.WriteString(tok)
+		}
+		i = e
+	}
+	return b.String()
+}
+
+// atomicCall recognises sync/atomic loads and stores on a field address.
+func (s *Session) atomicCall(st *State, callee *ssa.Function, args []Value, pos token.Pos) (Value, bool) {
+	if callee.Pkg == nil || callee.Pkg.Pkg.Path() != "sync/atomic" {
+		return nil, false
+	}
+	name := callee.Name()
+	l, ok := args[0].(*Loc)
+	if !ok {
+		if t, isT := args[0].(Term); isT {
+			if v, found := escapeTable[t.S]; found {
+				l, ok = v.(*Loc)
+			}
+		}
+	}
+	if !ok {
+		return nil, false
+	}
+	switch {
+	case strings.HasPrefix(name, "Load"):
+		s.rgLoad(st, l)
+		v := s.loadLoc(st, l)
+		st.assume(s.wellTyped(st, l.Obj, v))
+		return v, true
+	case strings.HasPrefix(name, "Store"):
+		v := s.asTerm(args[1], l.Obj)
+		s.rgStore(st, l, v, pos)
+		s.storeLoc(st, l, v)
+		return Unit{}, true
+	}
+	return nil, false
+}
